@@ -443,7 +443,7 @@ Fixpoint safe1 (d : dec) (w : bool) {struct d} : option bool :=
                 else None
   | DWillInit => Some true
   | DWillPayloadCopy => if w then Some w else None
-  | DFilterLoop | DUnsubFilterLoop | DReasonCodes | DUndefinedData => Some w
+  | DFilterLoop | DUnsubFilterLoop | DReasonCodes | DUndefinedData _ => Some w
   end.
 
 Fixpoint safe_list (ds : list dec) (w : bool) : option bool :=
